@@ -67,6 +67,8 @@ type (
 		GzipBody   []byte `json:"gzipBody,omitempty"`
 		BrBody     []byte `json:"brBody,omitempty"`
 		RawBody    []byte `json:"rawBody,omitempty"`
+		// createdAt 响应的创建时间（由所属的http cache设置），用于计算该响应的age
+		createdAt int64
 	}
 )
 
@@ -102,6 +104,15 @@ func NewHTTPResponse(statusCode int, header http.Header, encoding string, data [
 		resp.RawBody = data
 	}
 	return resp, nil
+}
+
+// Age get the age of the response, it is calculated from the time the response itself
+// was fetched (the http cache may have been refreshed since the response was got)
+func (resp *HTTPResponse) Age() int {
+	if resp.createdAt == 0 {
+		return 0
+	}
+	return int(nowUnix() - resp.createdAt)
 }
 
 // Bytes http response to bytes
